@@ -128,6 +128,7 @@ class Harness:
         self.A = base.import_dd('dd.autoref')
         self.sh = base.Shadow()
         base.std_shadows(self.sh, self.B)
+        engine.FORMAT_CONCRETIZE = True      # DOT labels are formatted node numbers
 
     def run(self):
         c = engine.CTX
